@@ -5,6 +5,7 @@ package harness
 import (
 	"bytes"
 	"fmt"
+	"io"
 	"sort"
 	"strings"
 	"testing"
@@ -76,6 +77,27 @@ func c03Describe(n datamodel.Node, tn *tnode) error {
 		}
 		if !bytes.Equal(b, tn.Data) {
 			return fmt.Errorf("file bytes differ: got %d bytes, want %d", len(b), len(tn.Data))
+		}
+		// the match is a file node: readers taken from it separately are independent
+		if lb, ok := n.(datamodel.LargeBytesNode); ok && len(tn.Data) >= 2 {
+			r1, e1 := lb.AsLargeBytes()
+			r2, e2 := lb.AsLargeBytes()
+			if e1 != nil || e2 != nil {
+				return fmt.Errorf("AsLargeBytes: %v %v", e1, e2)
+			}
+			half := len(tn.Data) / 2
+			p1 := make([]byte, half)
+			if _, err := io.ReadFull(r1, p1); err != nil {
+				return fmt.Errorf("first reader: %v", err)
+			}
+			all2, err := io.ReadAll(r2)
+			if err != nil || !bytes.Equal(all2, tn.Data) {
+				return fmt.Errorf("second reader of the matched file delivered %d bytes (err %v), want %d", len(all2), err, len(tn.Data))
+			}
+			rest1, err := io.ReadAll(r1)
+			if err != nil || !bytes.Equal(append(p1, rest1...), tn.Data) {
+				return fmt.Errorf("first reader of the matched file, continued after a second reader was used, delivered %d+%d bytes (err %v), want %d", len(p1), len(rest1), err, len(tn.Data))
+			}
 		}
 		return nil
 	}
